@@ -783,6 +783,21 @@ def run(ctx: Ctx):
     from . import evalflow as ef
     fl = ef.Flow(ctx, DET, "sound_event_detection").run()
     ef.check_objects(ctx, "R08.1", fl, "sound_event_detection", True)
+    # the classes of the task are the positions of the caller's `tags`: the encoder is built from that list, whole and in its order
+    s0 = ctx.summ.of_func(DET, "sound_event_detection")
+    mk = [e for e in s0.calls if e.term[1] == ("global", f"{ENC}:create_tag_encoder", "func")]
+    for e in mk:
+        arg = callkw(e.term).get("tags", e.term[2][0] if e.term[2] else None)
+        while arg is not None and arg[0] == "call" and arg[1] in (("builtin", "list"), ("builtin", "tuple")) and len(arg[2]) == 1 and not arg[3]:
+            arg = arg[2][0]
+        if arg == ("param", "tags"):
+            ctx.ok("R08.1", f"{s0.module.relpath}:{e.lineno} sound_event_detection", "the encoder is built from the caller's tags")
+        else:
+            ctx.bad("R08.1", s0.module.relpath, "sound_event_detection", f"create_tag_encoder({show(arg)[:50] if arg else ''})",
+                    f"the encoder is built from `{show(arg)[:60] if arg else '-'}` instead of the caller's tag vocabulary: annotations and predictions "
+                    f"with a dropped tag are evaluated as unlabelled, class positions shift", e.lineno)
+    if not mk:
+        ctx.undec("R08.1", f"{s0.module.relpath}:{s0.node.lineno} sound_event_detection", "create_tag_encoder(...) not found")
     if got:
         c.check_means(*got)
     # "paired only if their geometries overlap" and the reported affinity rest on the matcher (anchored file
